@@ -1,6 +1,7 @@
 (* C07 - the constants of the model are what the source says now (coq/Facts/Facts_c07.v and
    Facts_enums.v are regenerated from /repo on every run).  An unrecognised fact (None) degrades to
    "covered by the correspondence run only"; a recognised fact that differs breaks this file. *)
+From Coq Require Import String.
 From Icv Require Import Base.Tac Dep.DgModel Dep.DgObs Facts.Facts_enums Facts.Facts_c07.
 Local Open Scope Z_scope.
 
@@ -15,3 +16,14 @@ Theorem dg_facts_hold :
   dg_opt_is f_service_state_to_filter (fun t => t = map (fun s => (s, dg_state_filter true s)) [0; 1; 2; 3]) /\
   dg_opt_is f_host_state_to_filter (fun t => t = map (fun s => (s, dg_state_filter false s)) [0; 1]).
 Proof. vm_compute. repeat split; reflexivity. Qed.
+
+(* The per-checkable group map (m_DependencyGroups, m_PendingDependencies, GetDependencyGroupKey) is keyed by a SUM with
+   exactly the two alternatives of [dg_key]: the parent object for plain dependencies, the name for redundancy groups.
+   A single text key (see Dep/DgKeyProofs.v, dg_string_key_refuted) is recognised and breaks this proof. *)
+Definition dg_key_alt_name (k : dg_key) : string :=
+  match k with DgKParent _ => "Checkable*"%string | DgKGroup _ => "String"%string end.
+
+Theorem dg_key_fact_holds :
+  dg_opt_is f_dependency_group_key_alternatives
+            (fun l => l = [dg_key_alt_name (DgKParent 0); dg_key_alt_name (DgKGroup 0)]).
+Proof. vm_compute. reflexivity. Qed.
